@@ -182,10 +182,17 @@ async fn cookie_case(server: SocketAddr, spec_secret: &str, expiry: u64, age: i6
         Duration::from_secs(6) + stall,
     );
     plan.cookies = vec![(AUTH_KEY.to_string(), Some(payload))];
+    // every other client is a returning one that also presents a session cookie (unsigned, the
+    // client's to choose): it has no say in whether the authentication cookie is still good
+    let with_session = seed % 2 == 1;
+    if with_session {
+        let session = serde_json::to_vec(&json!({"id": scripts::uuid_string(seed as u128 ^ 0x5e55), "server_address": "limits.example.org", "server_port": 25565})).expect("json");
+        plan.cookies.push((SESSION_KEY.to_string(), Some(session)));
+    }
     let log = Client::new(&end, plan).run().await;
     end.kill();
     let expect_accept = own_secret && (age as i128 * 1000 + stall.as_millis() as i128) <= expiry as i128 * 1000;
-    let detail = json!({"expiry": expiry, "age_s": age, "signed_with_configured_secret": own_secret, "should_authenticate": log.enc_request.as_ref().map(|e| e.2), "clientbound": log.names()});
+    let detail = json!({"expiry": expiry, "age_s": age, "session_cookie_presented": with_session, "signed_with_configured_secret": own_secret, "should_authenticate": log.enc_request.as_ref().map(|e| e.2), "clientbound": log.names()});
     let signature = match log.enc_request.as_ref().map(|e| e.2) {
         None => Some((format!("cookie-connection-ended-early/{}", if expect_accept { "valid" } else { "invalid" }), "the connection ended before the Encryption Request".to_string())),
         Some(flag) if flag == expect_accept => Some(if expect_accept {
@@ -273,6 +280,7 @@ async fn deadline_case(server: SocketAddr, timeout: u64, b: Behaviour, direct: b
     };
     let limit = Duration::from_secs(timeout) + SLACK;
     let t0 = end.connected_at;
+    let mut client_log: Option<vp_sim::client::ClientLog> = None;
     match &b {
         Behaviour::Silent => {}
         Behaviour::Drip => {
@@ -293,7 +301,7 @@ async fn deadline_case(server: SocketAddr, timeout: u64, b: Behaviour, direct: b
             script.truncate(3);
             script.push(Act::AwaitClose);
             let plan = scripts::plan(script, true, [1u8; 16], limit + Duration::from_secs(2));
-            let _ = Client::new(&end, plan).run().await;
+            client_log = Some(Client::new(&end, plan).run().await);
         }
         Behaviour::StopAfter(k) => {
             let claimed = Ident { name: "Staller".into(), uuid: 9 };
@@ -313,13 +321,28 @@ async fn deadline_case(server: SocketAddr, timeout: u64, b: Behaviour, direct: b
             script.truncate(cut);
             script.push(Act::AwaitClose);
             let plan = scripts::plan(script, false, [3u8; 16], limit + Duration::from_secs(2));
-            let _ = Client::new(&end, plan).run().await;
+            client_log = Some(Client::new(&end, plan).run().await);
         }
     }
     let remaining = limit.saturating_sub(t0.elapsed());
     let closed_at = end.wait_closed(remaining).await;
     let open_for = closed_at.map(|t| t.duration_since(t0));
-    let detail = json!({"timeout_s": timeout, "behaviour": format!("{b:?}"), "closed_after_s": open_for.map(|d| d.as_secs_f64())});
+    // what the server said to a client it gave up on (C06 at the listener: a connection that is cut off
+    // gets no reply beyond what the protocol step it was in had already produced)
+    let beh = match b { Behaviour::Silent => "silent", Behaviour::Drip => "drip", Behaviour::StopAfter(_) => "stalled-login", Behaviour::StatusNoPing => "stalled-status" };
+    let names: Vec<&'static str> = client_log.as_ref().map(|l| l.names()).unwrap_or_default();
+    let said = match (&b, &client_log) {
+        (Behaviour::Silent | Behaviour::Drip, _) if end.bytes_received() > 0 => Some(format!("{} bytes were sent to a client that never completed a packet", end.bytes_received())),
+        // (no reply at all is fine too: a small configured maximum refuses the handshake frame itself)
+        (Behaviour::StatusNoPing, Some(l)) if l.garbage.is_some() || l.incomplete_tail > 0 || !(names.is_empty() || names == ["StatusResponse"]) => Some(format!("a status client that never pinged received {names:?}{}", if l.garbage.is_some() || l.incomplete_tail > 0 { " plus bytes that are not a packet of the status phase" } else { "" })),
+        (Behaviour::StopAfter(_), Some(l)) if l.garbage.is_some() || l.incomplete_tail > 0 || names.iter().any(|n| n.contains("Disconnect")) => Some(format!("a login client that stopped answering received {names:?}{}", if l.garbage.is_some() || l.incomplete_tail > 0 { " plus bytes that are not a packet of its phase under its cipher" } else { "" })),
+        _ => None,
+    };
+    let detail = json!({"timeout_s": timeout, "behaviour": format!("{b:?}"), "closed_after_s": open_for.map(|d| d.as_secs_f64()), "clientbound": names, "bytes_received": end.bytes_received()});
+    if let (Some(what), Some(_)) = (&said, open_for) {
+        end.kill();
+        return Outcome { class, signature: Some((format!("reply-at-deadline/{beh}"), what.clone())), detail, inconclusive: None };
+    }
     let signature = match open_for {
         None => Some((
             format!("connection-open-after-deadline/{}", match b { Behaviour::Silent => "silent", Behaviour::Drip => "drip", Behaviour::StopAfter(_) => "stalled-login", Behaviour::StatusNoPing => "stalled-status" }),
@@ -348,6 +371,8 @@ pub async fn run(cli: &Cli, report: &mut Report) {
         ];
         // every layer of the configuration disagrees; the environment decides
         v.push(Spec { max_packet_length: 450, expiry: 60, timeout: 3, secret: "operator secret H".into(), from_file: true, layered: 2 });
+        // a secret longer than one HMAC block (HMAC hashes longer keys, it does not cut them)
+        v.push(Spec { max_packet_length: 450, expiry: 60, timeout: 3, secret: "0123456789abcdef".repeat(7), from_file: false, layered: 0 });
         // a secret that a typed configuration layer could take for a number: it is text
         v.push(Spec { max_packet_length: 450, expiry: 60, timeout: 3, secret: "0042".into(), from_file: true, layered: 2 });
         if thorough {
@@ -374,14 +399,15 @@ pub async fn run(cli: &Cli, report: &mut Report) {
         }
         let m = spec.max_packet_length;
         // (C02 mode: only the cookie cases)
-        let cookies_only = cli.prop == "C02";
+        let cookies_only = cli.prop == "C02" || cli.prop == "C10";
         let frames_only = cli.prop == "C04";
+        let deadlines_only = cli.prop == "C06";
         // max+1, a frame that still fits any small receive buffer, and a much larger one
-        for declared in if cookies_only { vec![] } else { vec![m, m + 1, m + 12, 10 * m] } {
+        for declared in if cookies_only || deadlines_only { vec![] } else { vec![m, m + 1, m + 12, 10 * m] } {
             futures.push(Box::pin(frame_case(addr, m, declared)));
         }
         let ages: Vec<i64> = if spec.expiry <= 5 { vec![0, 30, 3600] } else if spec.expiry <= 60 { vec![0, 30, 3600] } else { vec![0, 30, 7200] };
-        for age in if frames_only { vec![] } else { ages } {
+        for age in if frames_only || deadlines_only { vec![] } else { ages } {
             // the cookie response frame is ~250 bytes: it only fits under a larger maximum
             if spec.max_packet_length < 400 {
                 continue;
@@ -397,7 +423,7 @@ pub async fn run(cli: &Cli, report: &mut Report) {
                 futures.push(Box::pin(async move { cookie_case(addr, &secret, expiry, age, own, seed, Duration::ZERO).await }));
             }
         }
-        if !frames_only && spec.expiry == 5 && spec.timeout >= 8 && spec.max_packet_length >= 400 {
+        if !frames_only && !deadlines_only && spec.expiry == 5 && spec.timeout >= 8 && spec.max_packet_length >= 400 {
             // 2 s old at connect, presented 2.5 s later: 4.5 s < 5 s still valid; 1 s later: expired.
             // (margins of 0.5 s and more on both sides of the wall-clock boundary are too tight on a
             // loaded machine, so: valid = 1 s old + 1.5 s stall, expired = 4 s old + 2.5 s stall)
@@ -408,7 +434,7 @@ pub async fn run(cli: &Cli, report: &mut Report) {
                 futures.push(Box::pin(async move { cookie_case(addr, &secret, expiry, age, true, seed, Duration::from_millis(stall_ms)).await }));
             }
         }
-        if !frames_only && spec.expiry == 4 {
+        if !frames_only && !deadlines_only && spec.expiry == 4 {
             for (wait_s, k) in [(1u64, 1u64), (6, 2)] {
                 let expiry = spec.expiry;
                 futures.push(Box::pin(async move { issued_cookie_case(addr, expiry, Duration::from_secs(wait_s), 500 + k).await }));
@@ -428,7 +454,7 @@ pub async fn run(cli: &Cli, report: &mut Report) {
     }
     // a backend that hangs: Listener directly with a discovery that never completes; the client
     // does everything right (echoes Keep Alives) and must still be cut off at the deadline
-    for timeout in if cli.prop == "C02" || cli.prop == "C04" { vec![] } else if thorough { vec![2u64, 18] } else { vec![2u64] } {
+    for timeout in if cli.prop == "C02" || cli.prop == "C10" || cli.prop == "C04" { vec![] } else if thorough { vec![2u64, 18] } else { vec![2u64] } {
         let l = start_direct(DirectSpec { timeout: Duration::from_secs(timeout), never_discovers: true, ..Default::default() }).await;
         futures.push(Box::pin(deadline_case(l.addr, timeout, Behaviour::StopAfter(99), true)));
         std::mem::forget(l);
@@ -476,5 +502,7 @@ pub async fn run_prop(cli: &Cli) -> i32 {
     report.assume("cookie ages within 3 s of the configured expiry are not generated (wall clock)");
     report.assume("closing earlier than the timeout is not judged here; only a connection still open at timeout + 5 s is a violation");
     run(cli, &mut report).await;
+    // what a cut-off client is sent is C06's clause (./check C06 runs it), not C14's
+    report.retain_violations(|sig| !sig.starts_with("reply-at-deadline"));
     report.finish()
 }
